@@ -171,7 +171,7 @@ func (e *Envoy) Close() { _ = e.conn.Close() }
 
 // EnvoyResult is the canonical view of a CheckResponse.
 type EnvoyResult struct {
-	Code    int  // google.rpc status code of the CheckResponse (0 = OK)
+	Code    int // google.rpc status code of the CheckResponse (0 = OK)
 	OK      bool
 	Status  int // denied http status (0 if OK or unset)
 	Headers [][2]string
@@ -210,7 +210,9 @@ func (e *Envoy) Check(method, scheme, host, pathAndQuery string, hdrs map[string
 		for _, x := range h {
 			res.Headers = append(res.Headers, [2]string{x.GetHeader().GetKey(), x.GetHeader().GetValue()})
 		}
-		sort.Slice(res.Headers, func(i, j int) bool { return res.Headers[i][0]+"\x00"+res.Headers[i][1] < res.Headers[j][0]+"\x00"+res.Headers[j][1] })
+		sort.Slice(res.Headers, func(i, j int) bool {
+			return res.Headers[i][0]+"\x00"+res.Headers[i][1] < res.Headers[j][0]+"\x00"+res.Headers[j][1]
+		})
 	}
 	// Envoy's ext_authz filter lets a request pass if and only if the status of the CheckResponse is OK, whatever
 	// http_response carries: that is the positive answer of this entry point.
